@@ -390,61 +390,84 @@ pub fn run(ctx: &Ctx, started: Instant) -> i32 {
     }
     let total = cases.len();
     let seed = ctx.seed;
-    let stats = par_shards(WORKERS, |shard| {
-        let mut st = Stats::default();
-        let mine: Vec<(usize, Case)> = cases.iter().copied().enumerate().filter(|(i, _)| i % WORKERS == shard).collect();
-        let res = with_system(async move {
-            let mut handles = Vec::new();
-            for (i, c) in mine {
-                // stagger the starts so that connections sit at different phases of the timer wheel
-                let offset = Duration::from_millis(((i as u64).wrapping_mul(137).wrapping_add(seed * 53)) % 1000);
-                handles.push((c, ntex::rt::spawn(async move {
-                    sleep(offset).await;
-                    run_conn(c).await
-                })));
+    // one round: all given connections concurrently, spread over the workers; returns the cases without a verdict
+    let round = |cases: Vec<Case>, workers: usize, stats: &mut Stats| -> Vec<Case> {
+        let again = std::sync::Mutex::new(Vec::new());
+        let st = par_shards(WORKERS, |shard| {
+            let mut st = Stats::default();
+            if shard >= workers {
+                return st;
             }
-            let mut out = Vec::new();
-            for (c, h) in handles {
-                out.push((c, h.await));
+            let mine: Vec<(usize, Case)> = cases.iter().copied().enumerate().filter(|(i, _)| i % workers == shard).collect();
+            if mine.is_empty() {
+                return st;
             }
-            out
-        });
-        match res {
-            Ok(list) => {
-                for (c, r) in list {
-                    match r {
-                        Ok(Verdict::Ok(info)) => {
-                            st.record(&info);
-                            st.sample(|| json!({"case": c}));
-                        }
-                        Ok(Verdict::Inconclusive(why)) => {
-                            st.evaluations += 1;
-                            st.label("inconclusive", 1);
-                            st.notes.push(format!("inconclusive: {why}"));
-                        }
-                        Ok(Verdict::Fail(f)) => {
-                            st.evaluations += 1;
-                            st.fail(f.with_case(json!({"case": c})));
-                        }
-                        Err(e) => {
-                            st.evaluations += 1;
-                            st.fail(Failure::new("panic", "C20/panic".to_owned(), format!("connection task failed: {e:?}")).with_case(json!({"case": c})));
+            let res = with_system(async move {
+                let mut handles = Vec::new();
+                for (i, c) in mine {
+                    // stagger the starts so that connections sit at different phases of the timer wheel
+                    let offset = Duration::from_millis(((i as u64).wrapping_mul(137).wrapping_add(seed * 53)) % 1000);
+                    handles.push((c, ntex::rt::spawn(async move {
+                        sleep(offset).await;
+                        run_conn(c).await
+                    })));
+                }
+                let mut out = Vec::new();
+                for (c, h) in handles {
+                    out.push((c, h.await));
+                }
+                out
+            });
+            match res {
+                Ok(list) => {
+                    for (c, r) in list {
+                        match r {
+                            Ok(Verdict::Ok(info)) => {
+                                st.record(&info);
+                                st.sample(|| json!({"case": c}));
+                            }
+                            Ok(Verdict::Inconclusive(why)) => {
+                                st.label("driver-slipped-retried", 1);
+                                st.notes.push(format!("no verdict ({why}): {c:?}"));
+                                again.lock().unwrap().push(c);
+                            }
+                            Ok(Verdict::Fail(f)) => {
+                                st.evaluations += 1;
+                                st.fail(f.with_case(json!({"case": c})));
+                            }
+                            Err(e) => {
+                                st.evaluations += 1;
+                                st.fail(Failure::new("panic", "C20/panic".to_owned(), format!("connection task failed: {e:?}")).with_case(json!({"case": c})));
+                            }
                         }
                     }
                 }
+                Err(e) => st.notes.push(format!("runtime error: {e}")),
             }
-            Err(e) => st.notes.push(format!("runtime error: {e}")),
+            st
+        });
+        stats.merge(st);
+        again.into_inner().unwrap()
+    };
+    let mut stats = Stats::default();
+    // a case whose driver slipped is run again, with fewer connections at once
+    let mut left = round(cases, WORKERS, &mut stats);
+    for workers in [4usize, 2, 2] {
+        if left.is_empty() {
+            break;
         }
-        st
-    });
-    let inconclusive = stats.labels.get("inconclusive").copied().unwrap_or(0);
+        left = round(left, workers, &mut stats);
+    }
+    let inconclusive = left.len() as u64;
+    stats.evaluations += inconclusive;
+    stats.label("inconclusive", inconclusive);
     let report = Report {
         level: "exploration",
         rule: format!(
             "{total} connections in real time (several repetitions at staggered phases of the 1 s timer wheel), all concurrent: keep-alive source {{client value 1/2 (thorough 3) s -> idle period k + k/2; handshake override idle_timeout / keep_alive 1/2 (3) s; v3 idle_timeout(0) = disabled}} x \
              {{dead peer: 0..2 complete packets 0.5 s or T-0.5 s apart, then silence -> ended within [T-0.6 s, T+2.2 s] after the last complete packet with a keep-alive timeout (v5: DISCONNECT 0x8D); live peer: a complete packet every 0.5 s or T-1.0 s for three periods, whole or in two writes 0.2 s apart -> never ended}}; \
              frame read rate 1 s / 16 bytes / max 4 s: partial frame then stall and 8 bytes/s trickle -> read timeout, 80 bytes/s -> frame handled, no timeout; half a CONNECT against connect timeout 1 s -> dropped within 3.5 s, no handshake; disabled keep-alive -> still open after 4.5 s; \
-             client role keep-alive 1/2 s idle -> a PINGREQ in every window of k+1.2 s. A case whose driver woke up more than 0.3 s late is inconclusive ({inconclusive} this run). Non-trivial = every pattern (each has a decisive gap or partial frame); distinct = (role, source, pattern)"
+             client role keep-alive 1/2 s idle -> a PINGREQ in every window of k+1.2 s. A case whose driver woke up more than 0.3 s late is run again with fewer connections at once (up to three more rounds; {inconclusive} left without a verdict this run). Non-trivial = every pattern (each has a decisive gap or partial frame); distinct = (role, source, pattern)"
         ),
         exhaustive: false,
         assumptions: vec![
@@ -454,8 +477,8 @@ pub fn run(ctx: &Ctx, started: Instant) -> i32 {
         extra: BTreeMap::new(),
     };
     // too many inconclusive cases: the machine was overloaded, nothing can be said
-    if inconclusive * 20 > total as u64 && stats.failures.is_empty() {
-        eprintln!("C20: {inconclusive} of {total} cases inconclusive (driver slipped): no verdict");
+    if inconclusive * 4 > total as u64 && stats.failures.is_empty() {
+        eprintln!("C20: {inconclusive} of {total} cases still without a verdict after three more rounds (driver slipped): machine overloaded");
         return 2;
     }
     finish(ctx, started, stats, report)
